@@ -1182,6 +1182,10 @@ init_strtab(kdump_ctx_t *ctx, unsigned strtabidx)
 		return KDUMP_OK;	/* no string table */
 
 	ps = edp->sections + strtabidx;
+	status = check_file_extent(ctx, 0, ps->file_offset, ps->size,
+				   "ELF string table");
+	if (status != KDUMP_OK)
+		return status;
 	if (ps->size >= SIZE_MAX)
 		return set_error(ctx, KDUMP_ERR_CORRUPT,
 				 "Invalid ELF string table size: %" PRIu64,
